@@ -236,6 +236,117 @@ func inlineOne(p *packages.Package, path string, known map[string]bool) string {
 				}
 				mode, target, selected = "guard", is, is.Body.List
 			}
+			var parentList *[]ast.Stmt // single-exit context: where the body's statements are spliced in
+			if mode == "" && !inLit && sig.Results().Len() == 1 && len(returns) == 1 && len(fd.Body.List) > 0 && returns[0] == fd.Body.List[len(fd.Body.List)-1] {
+				// a function with one result whose only return is its last statement, called from a simple statement in
+				// which nothing else has an effect: the statements move in front and the call becomes the returned expression
+				named := false
+				for _, fl := range fd.Type.Results.List {
+					if len(fl.Names) > 0 {
+						named = true
+					}
+				}
+				var st ast.Stmt
+				var holder ast.Node
+				for i := len(stackAt) - 1; i > 0 && st == nil; i-- {
+					if s0, isStmt := stackAt[i].(ast.Stmt); isStmt {
+						switch b := stackAt[i-1].(type) {
+						case *ast.BlockStmt:
+							st, holder, parentList = s0, b, &b.List
+						case *ast.CaseClause:
+							st, holder, parentList = s0, b, &b.Body
+						}
+						if st == nil {
+							switch s0.(type) {
+							case *ast.ExprStmt, *ast.AssignStmt, *ast.ReturnStmt:
+								// keep climbing only out of an if statement's init
+							default:
+								i = 0
+							}
+						}
+					}
+				}
+				okStmt := false
+				switch x := st.(type) {
+				case *ast.ExprStmt, *ast.AssignStmt, *ast.ReturnStmt:
+					okStmt = true
+				case *ast.IfStmt:
+					// only in the init or the condition (evaluated once, before anything else of the statement)
+					in := false
+					for _, part := range []ast.Node{x.Init, x.Cond} {
+						if part != nil {
+							ast.Inspect(part, func(n ast.Node) bool {
+								if n == ast.Node(site) {
+									in = true
+								}
+								return true
+							})
+						}
+					}
+					okStmt = in
+				}
+				if okStmt && !named {
+					// nothing else in the statement may have an effect (other calls, receives, closures)
+					pureRest := true
+					ast.Inspect(st, func(n ast.Node) bool {
+						if n == ast.Node(site) {
+							return false
+						}
+						switch y := n.(type) {
+						case *ast.BlockStmt:
+							return false // the arms of an if statement run afterwards
+						case *ast.CallExpr:
+							if tv, ok := info.Types[y.Fun]; !ok || !(tv.IsType() || tv.IsBuiltin()) {
+								pureRest = false
+							}
+						case *ast.FuncLit:
+							pureRest = false
+						case *ast.UnaryExpr:
+							if y.Op == token.ARROW {
+								pureRest = false
+							}
+						}
+						return true
+					})
+					// no capture: what the body declares is neither used by the statement nor by what follows it, nor
+					// already declared where it goes
+					declared := declaredIn(fd.Body)
+					clash := false
+					if len(declared) > 0 {
+						has := declaredIn(&ast.BlockStmt{List: *parentList})
+						if sc := info.Scopes[holder]; sc != nil {
+							for nm := range declared {
+								if sc.Lookup(nm) != nil {
+									clash = true
+								}
+							}
+						}
+						after := false
+						for _, s1 := range *parentList {
+							if s1 == st {
+								after = true
+							}
+							if !after {
+								continue
+							}
+							ast.Inspect(s1, func(n ast.Node) bool {
+								if id, ok := n.(*ast.Ident); ok && declared[id.Name] {
+									clash = true
+								}
+								return true
+							})
+						}
+						for nm := range declared {
+							if has[nm] {
+								clash = true
+							}
+						}
+					}
+					if pureRest && !clash {
+						mode, target = "single exit", st
+					}
+				}
+			}
 			if mode == "" {
 				continue
 			}
@@ -255,7 +366,7 @@ func inlineOne(p *packages.Package, path string, known map[string]bool) string {
 					continue
 				}
 			}
-			pre, ok := bindArguments(fd, sig, site, info)
+			pre, ok := bindArguments(fd, sig, site, info, mode != "single exit")
 			if !ok {
 				continue
 			}
@@ -285,6 +396,38 @@ func inlineOne(p *packages.Package, path string, known map[string]bool) string {
 					continue
 				}
 				body = wrapped.List
+			}
+			if mode == "single exit" {
+				ret := returns[0].Results[0]
+				done := false
+				astutil.Apply(target, func(c *astutil.Cursor) bool {
+					if c.Node() == ast.Node(site) && !done {
+						c.Replace(&ast.ParenExpr{Lparen: site.Pos(), X: ret, Rparen: site.End()})
+						done = true
+						return false
+					}
+					return !done
+				}, nil)
+				if !done {
+					continue
+				}
+				var nl []ast.Stmt
+				for _, s1 := range *parentList {
+					if s1 == target {
+						nl = append(nl, pre...)
+						nl = append(nl, body[:len(body)-1]...)
+					}
+					nl = append(nl, s1)
+				}
+				*parentList = nl
+				var keep []ast.Decl
+				for _, d2 := range f.Decls {
+					if d2 != ast.Decl(fd) {
+						keep = append(keep, d2)
+					}
+				}
+				f.Decls = keep
+				return fmt.Sprintf("function %s (not in the pinned tree, one call site: %s) analysed in place", obj.Name(), mode)
 			}
 			blk := &ast.BlockStmt{Lbrace: site.Pos(), List: append(pre, body...), Rbrace: site.End()}
 			replaced := false
@@ -377,7 +520,7 @@ func looseBranches(body *ast.BlockStmt) bool {
 // bindArguments renames read-only parameters given plain variables to those
 // variables (in place, in the body) and returns the `params := args`
 // statement for the others.
-func bindArguments(fd *ast.FuncDecl, sig *types.Signature, site *ast.CallExpr, info *types.Info) ([]ast.Stmt, bool) {
+func bindArguments(fd *ast.FuncDecl, sig *types.Signature, site *ast.CallExpr, info *types.Info, allowDefine bool) ([]ast.Stmt, bool) {
 	used := map[types.Object]bool{}
 	ast.Inspect(fd.Body, func(n ast.Node) bool {
 		if id, ok := n.(*ast.Ident); ok && info.Uses[id] != nil {
@@ -440,6 +583,9 @@ func bindArguments(fd *ast.FuncDecl, sig *types.Signature, site *ast.CallExpr, i
 			lhs = append(lhs, &ast.Ident{NamePos: site.Pos(), Name: nm.Name})
 			rhs = append(rhs, arg)
 		}
+	}
+	if len(lhs) > 0 && !allowDefine {
+		return nil, false // the statements are spliced into the caller's block: no new declarations for parameters
 	}
 	// two parameters renamed to each other's names would capture: keep it simple
 	for _, r1 := range renames {
